@@ -62,6 +62,9 @@ def run_variant(arg):
         with open(op, "rb") as f:
             out = pickle.load(f)
     st = out["steps"][which_step]
+    if "result" in st and st["result"][0] == "exc" and st["result"][4]:
+        # refused by dds with an error code: an outcome that must not depend on the environment either
+        return (name, None, {"refused": [st["result"][1], st["result"][3]], "sync": {}, "all_paths": {}})
     if "result" not in st or st["result"][0] != "ok":
         return (name, "evaluation failed: %r" % (st.get("result", st.get("setup_error")),), None)
     m = {}
@@ -135,6 +138,21 @@ def program_job(arg):
             base = m
     if base is None:
         return rep
+    if base.get("refused") or any(m and m.get("refused") for _, _, m in results):
+        # a program that dds refuses (coded error): refused in the same way in every environment, or accepted in none
+        rep.evaluations = len(results)
+        kinds = {}
+        for name, err, m in results:
+            if err:
+                continue
+            rep.count("refusal_comparisons")
+            kinds.setdefault(repr(m.get("refused")) if m.get("refused") else "accepted:" + gen.h(sorted(m["all_paths"].items())), []).append(name)
+        if len(kinds) > 1:
+            rep.violate("program %d (%s): outcome depends on the environment: %s" % (idx, p["pkg"], "; ".join("%s in %s" % (k[:60], v[:4]) for k, v in sorted(kinds.items()))),
+                        {"program": p, "outcomes": dict((k, v) for k, v in kinds.items())}, mechanism="variant:refusal")
+        else:
+            rep.nontriv(("c03refused", gen.h(gen.render(p))))
+        return rep
     if not base["sync"]:
         rep.inconclusive.append("program %d: no sync_paths observed" % idx)
         return rep
@@ -203,6 +221,18 @@ def programs_for(tier, seed):
             p = progs.random_program(rng, "c3r%d" % i)
             while len(gen.kept_nodes(p)) < 2:
                 p = progs.random_program(rng, "c3r%d" % i)
+        ps.append(p)
+    # programs that dds refuses with a coded error (a parameter default of a type it cannot hash: a sentinel object, a
+    # function): refused identically everywhere
+    for j, dsrc in enumerate(("_MISSING", "_fallback")):
+        p = progs.base_program("c3x%d" % j)
+        ids = p["_ids"]
+        p["fns"][ids["A"]]["params"][1][1] = dsrc
+        p["fns"][p["entry"]]["stmts"][0]["args"] = [gen.lit("1")]
+        mid = p["fns"][ids["A"]]["module"]
+        p["extras"]["x_sentinel"] = "_MISSING = object()\n\n\ndef _fallback():\n    return 0\n"
+        p["order"][mid].insert(0, ("extra", "x_sentinel"))
+        p["expect_refusal"] = True
         ps.append(p)
     return ps
 
